@@ -7,6 +7,12 @@ VERIF = os.path.dirname(os.path.dirname(os.path.abspath(__file__)))
 ALL = [f"C{i:02d}" for i in range(1, 21)]
 
 CLAIMS = {
+    "C05": dict(
+        text="Machine-checked Coq proofs: for EVERY byte table the model of findlinestarts bound by a version's opcode table equals that version's dis.findlinestarts (unsigned <3.6, signed 3.6-3.9, cut-off from 3.8); the 3.10 co_lines() model equals lineiter_next's sequence; findlinestarts over co_lines() equals the 3.10-3.12 and the 3.13 rules; offset2line's binary search returns the line of the greatest start <= offset for every strictly increasing mapping (invariant proof). Model tied to /repo by in-Coq correspondence through the opcode modules of 11 versions; 3.11+ location-table decoding is tied to the spec by the C17 theorems.",
+        note="Trusted: Coq kernel; hand models coq/Model/LineStarts.v, CoLines.v + correspondence harness; Spec/Lnotab.v, Lines310.v, Loc311.v transcribed from CPython and validated on every run against dis.findlinestarts/co_lines() of the installed 2.7, 3.6-3.13. No axioms.",
+        technique="Coq proof by induction (decoders, binary-search invariant) + in-Coq correspondence",
+        design="7/C05",
+    ),
     "C06": dict(
         text="Machine-checked Coq proof (C06_agree): for the magic of every final CPython release (from CPython's registry) and every PyPy file of the corpus, and for EVERY byte string after the magic, the model of load_module's header parser returns the version, magic and exactly the fields the producing version's format stores (spec_fields), leaving the code object at the byte after them. Header decision per magic is a vm_compute obligation over tables regenerated from /repo; field decoding is an arithmetic proof. Model tied to load_module_from_file_object by in-Coq correspondence over every table magic x flag words x truncations.",
         note="Trusted: Coq kernel; hand model coq/Model/Load.v + correspondence harness; translator for magics tables; Spec/Header.v validated against py_compile of the 9 installed interpreters in every invalidation mode. Magic 62135 (Dropbox) and non-final magics are outside the theorem. No axioms.",
